@@ -1975,6 +1975,10 @@ class MemoryExtendedWrite(APCIRequest[MemoryExtendedWriteResponse]):
                 f"Invalid length for A_MemoryExtended_Write in CEMI: {raw.hex()}"
             )
         count = raw[2]
+        if not 0 <= count <= 250:
+            raise ConversionError(
+                f"Count out of range for A_MemoryExtended_Write in CEMI: {raw.hex()}"
+            )
         address = int.from_bytes(raw[3:6], "big")
         data = raw[6:]
 
@@ -2083,6 +2087,10 @@ class MemoryExtendedRead(APCIRequest[MemoryExtendedReadResponse]):
                 f"Invalid length for A_MemoryExtended_Read in CEMI: {raw.hex()}"
             )
         count = raw[2]
+        if not 0 <= count <= 250:
+            raise ConversionError(
+                f"Count out of range for A_MemoryExtended_Read in CEMI: {raw.hex()}"
+            )
         address = int.from_bytes(raw[3:6], "big")
 
         return cls(
@@ -3015,6 +3023,10 @@ class FilterTableWrite(APCI):
             )
         size = len(raw) - 5
         number, filter_table_address, data = struct.unpack(f"!BH{size}s", raw[2:])
+        if not 1 <= number <= 254:
+            raise ConversionError(
+                f"Number out of range for A_FilterTable_Write in CEMI: {raw.hex()}"
+            )
 
         return cls(
             filter_table_address=filter_table_address,
@@ -3087,6 +3099,10 @@ class FilterTableResponse(APCI):
             )
         size = len(raw) - 5
         number, filter_table_address, data = struct.unpack(f"!BH{size}s", raw[2:])
+        if not 0 <= number <= 254:
+            raise ConversionError(
+                f"Number out of range for A_FilterTable_Response in CEMI: {raw.hex()}"
+            )
 
         return cls(
             filter_table_address=filter_table_address,
@@ -3147,6 +3163,10 @@ class FilterTableRead(APCIRequest[FilterTableResponse]):
                 f"Invalid length for A_FilterTable_Read in CEMI: {raw.hex()}"
             )
         number, filter_table_address = struct.unpack("!BH", raw[2:])
+        if not 1 <= number <= 254:
+            raise ConversionError(
+                f"Number out of range for A_FilterTable_Read in CEMI: {raw.hex()}"
+            )
 
         return cls(filter_table_address=filter_table_address, number=number)
 
@@ -3208,6 +3228,10 @@ class RouterMemoryWrite(APCI):
             )
         size = len(raw) - 5
         number, memory_address, data = struct.unpack(f"!BH{size}s", raw[2:])
+        if not 1 <= number <= 254:
+            raise ConversionError(
+                f"Number out of range for A_RouterMemory_Write in CEMI: {raw.hex()}"
+            )
 
         return cls(
             memory_address=memory_address,
@@ -3277,6 +3301,10 @@ class RouterMemoryResponse(APCI):
             )
         size = len(raw) - 5
         number, memory_address, data = struct.unpack(f"!BH{size}s", raw[2:])
+        if not 0 <= number <= 254:
+            raise ConversionError(
+                f"Number out of range for A_RouterMemory_Response in CEMI: {raw.hex()}"
+            )
 
         return cls(
             memory_address=memory_address,
@@ -3337,6 +3365,10 @@ class RouterMemoryRead(APCIRequest[RouterMemoryResponse]):
                 f"Invalid length for A_RouterMemory_Read in CEMI: {raw.hex()}"
             )
         number, memory_address = struct.unpack("!BH", raw[2:])
+        if not 1 <= number <= 254:
+            raise ConversionError(
+                f"Number out of range for A_RouterMemory_Read in CEMI: {raw.hex()}"
+            )
 
         return cls(memory_address=memory_address, number=number)
 
